@@ -888,8 +888,8 @@ VResult o_amr_tree(const VCase &c) {
     const std::string known; // (no open finding)
     const Vec pos(x[0], x[1], x[2]);
     // classification of an answer that is not the expected leaf:
-    //  0 = wrong, 1 = tie of the geometry (position on an in-block wall is given
-    //  to the lower sibling, whose closed box contains it)
+    //  0 = wrong, 1 = tie of the geometry (a position a few ulp below a wall
+    //  may be given to the cell above: cell boxes agree only up to rounding)
     auto classify = [&](uint64_t kk) -> int {
       auto itk = keyleaf.find(kk);
       if (itk == keyleaf.end())
@@ -898,18 +898,19 @@ VResult o_amr_tree(const VCase &c) {
       const Box<> b2 = grid[k2].get_geometry();
       for (int i = 0; i < 3; ++i) {
         const double a2 = b2.get_anchor()[i], t2 = a2 + b2.get_sides()[i];
-        // closed box of the answer, widened by a few ulp (anchors are sums of
-        // rounded terms: the top of a cell and the anchor of the next one agree
-        // only up to rounding)
-        const double tolw = 8. * EPS * (scale + g.L[i]);
-        if (x[i] >= a2 - tolw && x[i] <= t2 + tolw) {
-          // ... unless the position sits on a top-level block wall and was
-          // given to the block below (the block lookup must agree with the
-          // block anchors: regression F8)
-          if (onwall[i] && n.ic[i] == 0 && n.b[i] > 0 && x[i] >= t2 - tolw)
-            return 0;
-          continue;
+        // a position exactly on the lower wall of a leaf belongs to that leaf
+        // (half-open boxes, Box::inside): the lookup compares with the very
+        // anchors the cells are built with, so this is exact
+        if (onwall[i]) {
+          if (x[i] >= a2 && x[i] < t2)
+            continue;
+          return 0;
         }
+        // otherwise: closed box of the answer, widened by a few ulp (the top of
+        // a cell and the anchor of the next one agree only up to rounding)
+        const double tolw = 8. * EPS * (scale + g.L[i]);
+        if (x[i] >= a2 - tolw && x[i] <= t2 + tolw)
+          continue;
         return 0;
       }
       return 1;
@@ -947,7 +948,7 @@ VResult o_amr_tree(const VCase &c) {
     }
   }
   if (ntie)
-    r.label("wall-position-in-lower-sibling(tie)");
+    r.label("ulp-below-wall-in-upper-leaf(tie)");
   if (nwall)
     r.label("query-on-leaf-wall");
   if (nblockwall)
